@@ -1,7 +1,7 @@
 """C03 — MULgraph geometry file round trip (machine `store`, component mulgrid)."""
 import random
 
-from ..engine import Violation
+from ..engine import Violation, _short_tb
 from ..seeds import H
 from ..simfs import HarnessError
 from .. import fortran as F
@@ -201,7 +201,7 @@ class GeoStoreMachine(StoreMachine):
             elif kd == 'W':
                 ch = [R(3), R(3)]
             elif kd == 'R':
-                ch = [R(3), R(8)]
+                ch = [R(3), R(8), R(6)]
             elif kd == 'SHIPPED':
                 ch = [R(3), R(16), R(big)]
             else:
@@ -295,13 +295,49 @@ class GeoStoreMachine(StoreMachine):
     def o1_key(self, sub, want):
         return '-'
 
+    def read_ordered(self, name, slot, order):
+        """mulgrid(filename, block_order=...) must give the geometry that reading the file and
+        then choosing the block order gives, and otherwise what was written."""
+        ctx = self.ctx
+        r = self.ref.get(name)
+        if r is None or r['state'] != 'ack':
+            ctx.stats['skip_R_nofile'] += 1
+            return
+        ctx.fs.begin_op(self.STEP_BUDGET)
+        try:
+            g1 = self.mg.mulgrid(self.path(name + '.geo'), block_order=order)
+            g2 = self.mg.mulgrid(self.path(name + '.geo'))
+            g2.block_order = order
+        except Exception as e:
+            if 'not supported by DMPlex ordering' in str(e):
+                ctx.stats['skip_R_dmplex_refused'] += 1      # columns with more than 4 sides
+                return
+            raise Violation('EXC', 'mulgrid(%r, block_order=%r) raised %s'
+                            % (name, order, _short_tb(e)))
+        g1.filename = g2.filename = ''
+        a, b = snap_geo(g1), snap_geo(g2)
+        self.compare(b, a, r['cfg'], 'mulgrid(file, block_order=%r) against read + block_order '
+                     'setter' % order)
+        w = dict(r['snap'])
+        w['header'] = dict(w['header'], block_order=order)
+        w['block_names'] = None                      # the order asked for, not the one on file
+        self.compare(w, a, r['cfg'], 'mulgrid(file, block_order=%r) against what was written'
+                     % order)
+        self.objs[slot] = g1
+        ctx.probes['read_with_block_order_argument'] += 1
+        ctx.state_changes += 1
+
     def after_write(self, name, cfg, want):
         """O-file: an independent column scan of the VERTICES / LAYERS / SURFA records of the
         written file gives the snapshot in *file units* (feet for a FEET geometry) to 2 decimals,
         and the header carries the unit."""
         data = self.ctx.fs.files.get(name + '.geo')
         lines = data.decode('utf-8', 'replace').split('\n')
-        sc = want['scale']
+        # metres per file unit, from the definition of the foot (not from the object)
+        sc = 0.3048 if want['header']['unit_type'] == 'FEET ' else 1.0
+        if abs(want['scale'] - sc) > 1e-15:
+            raise Violation('O-feet', 'a geometry with unit_type %r has unit scale %r; a foot is '
+                            '0.3048 m exactly' % (want['header']['unit_type'], want['scale']))
         if lines[0][27:32] != ('%-5s' % want['header']['unit_type']):
             raise Violation('O-feet', 'file header carries unit %r for a geometry with unit_type %r'
                             % (lines[0][27:32], want['header']['unit_type']))
@@ -466,6 +502,9 @@ class GeoStoreMachine(StoreMachine):
             cfg = {'unit': geo.unit_type, 'conv': geo.convention, 'atm': geo.atmosphere_type}
             self.do_write(slot, self.NAMES[ni], cfg, fault)
         elif kind == 'R':
+            if ch[2] % 6 >= 4 and fault is None:
+                return self.read_ordered(self.pick_name(ch[0]), ch[1] % 3,
+                                         ('layer_column', 'dmplex')[ch[2] % 2])
             reuse = None
             slot = ch[1]
             if slot % 8 >= 4 and self.objs:
